@@ -5,34 +5,50 @@
    order between ranks is irrelevant since visits commute):
      {"e":"run","op":OP,"uplo":U,"mt":MT,"nt":NT}
      {"e":"visit","m":M,"n":N,"tu":TILE_UPLO,"sv":VALUE_SEEN_IN_THE_TILE}      one per operator invocation
+     {"e":"counts","m":M,"n0":N0,"c":[c0,c1,..],"wd":W}   op "mapcount" only (map operator on thousands of tiles, cheap
+                                                          logging): one rank invoked the operator c_j times on tile
+                                                          (M, N0+j); W of these did not see the tile's data
      {"e":"result","calls":C,"vals":[...]}                                     reductions: the reduced values
      {"e":"finish"}                                                            the taskpool completed on every rank
    A visit must be to a not yet visited tile of the region, with the right tile-level uplo and the tile's data;
    finish is only possible once the whole region has been visited (and, for reductions, the result equals the
-   sequential fold and the operator was applied once per combined pair).                                        *)
+   sequential fold and the operator was applied once per combined pair).  For "mapcount" runs the per-tile numbers of
+   Visit steps are accumulated over the ranks' counts records (cnt) and finish requires cnt[t] = 1 for every tile of
+   the region: exactly the same decision as with one visit event per invocation.                                *)
 EXTENDS Operators, Json, IOUtils
-VARIABLES l, got
+VARIABLES l, got, cnt
 TraceLog == ndJsonDeserialize(IOEnv.TRACE)
 Ev == TraceLog[l]
 IsEv(e) == l <= Len(TraceLog) /\ Ev.e = e /\ l' = l + 1
 IsReduce(r) == r.op \in {"reduce_col", "reduce_row", "reduce"}
 
-TInit == run = NoRun /\ visited = {} /\ got = FALSE /\ l = 1
-TReset == IsEv("Reset") /\ run' = NoRun /\ visited' = {} /\ got' = FALSE
+NoCnt == <<>>
+TInit == run = NoRun /\ visited = {} /\ got = FALSE /\ cnt = NoCnt /\ l = 1
+TReset == IsEv("Reset") /\ run' = NoRun /\ visited' = {} /\ got' = FALSE /\ cnt' = NoCnt
 TStart == /\ IsEv("run") /\ run = NoRun
-          /\ Ev.op \in {"apply", "map", "reduce_col", "reduce_row", "reduce"}
+          /\ Ev.op \in {"apply", "map", "mapcount", "reduce_col", "reduce_row", "reduce"}
           /\ Ev.uplo \in Uplos /\ Ev.mt >= 1 /\ Ev.nt >= 1
           /\ (Ev.op # "apply" => Ev.uplo = "full")
           /\ run' = [op |-> Ev.op, uplo |-> Ev.uplo, mt |-> Ev.mt, nt |-> Ev.nt]
           /\ visited' = {} /\ got' = FALSE
+          /\ cnt' = IF Ev.op = "mapcount" THEN [t \in TilesOf(Ev.mt, Ev.nt) |-> 0] ELSE NoCnt
 \* the operator ran on tile (m,n)
-TVisit == /\ IsEv("visit") /\ run # NoRun /\ ~IsReduce(run)
+TVisit == /\ IsEv("visit") /\ run # NoRun /\ ~IsReduce(run) /\ run.op # "mapcount"
           /\ LET t == <<Ev.m, Ev.n>> IN
                /\ t \in Region(run.uplo, run.mt, run.nt) \ visited          \* in the region, not visited before
                /\ Ev.tu = TileUplo(run.uplo, t)
                /\ Ev.sv = Val(t)                                           \* it was given that tile's data
                /\ visited' = visited \cup {t}
-          /\ UNCHANGED <<run, got>>
+          /\ UNCHANGED <<run, got, cnt>>
+\* mapcount: one rank's numbers of operator invocations on the tiles (m, n0) .. (m, n0 + Len(c) - 1), all with the tile's data
+ChunkOK(e, r) == /\ e.m >= 0 /\ e.m < r.mt /\ e.n0 >= 0 /\ e.n0 + Len(e.c) <= r.nt
+                 /\ {j \in 1..Len(e.c) : e.c[j] < 0} = {}
+                 /\ e.wd = 0
+TCounts == /\ IsEv("counts") /\ run # NoRun /\ run.op = "mapcount"
+           /\ (ChunkOK(Ev, run) = TRUE)
+           /\ cnt' = [t \in DOMAIN cnt |-> IF t[1] = Ev.m /\ t[2] >= Ev.n0 /\ t[2] < Ev.n0 + Len(Ev.c)
+                                             THEN cnt[t] + Ev.c[t[2] - Ev.n0 + 1] ELSE cnt[t]]
+           /\ UNCHANGED <<run, visited, got>>
 \* reductions: the values delivered to the destination
 Expected(r) == CASE r.op = "reduce_col" -> [k \in 1..r.nt |-> SumOf(ColTiles(r.mt, k - 1))]
                  [] r.op = "reduce_row" -> [k \in 1..r.mt |-> SumOf(RowTiles(r.nt, k - 1))]
@@ -40,11 +56,13 @@ Expected(r) == CASE r.op = "reduce_col" -> [k \in 1..r.nt |-> SumOf(ColTiles(r.m
 TResult == /\ IsEv("result") /\ run # NoRun /\ IsReduce(run) /\ ~got
            /\ Ev.vals = Expected(run)                                      \* equals the sequential fold
            /\ Ev.calls = run.mt * run.nt - Len(Expected(run))              \* every tile combined exactly once
-           /\ got' = TRUE /\ UNCHANGED <<run, visited>>
+           /\ got' = TRUE /\ UNCHANGED <<run, visited, cnt>>
 TFinish == /\ IsEv("finish") /\ run # NoRun
-           /\ IF IsReduce(run) THEN got ELSE visited = Region(run.uplo, run.mt, run.nt)
-           /\ run' = NoRun /\ visited' = {} /\ got' = FALSE
-TNext == TReset \/ TStart \/ TVisit \/ TResult \/ TFinish
-TSpec == TInit /\ [][TNext]_<<run, visited, got, l>>
+           /\ IF IsReduce(run) THEN got
+              ELSE IF run.op = "mapcount" THEN {t \in Region(run.uplo, run.mt, run.nt) : cnt[t] # 1} = {}
+              ELSE visited = Region(run.uplo, run.mt, run.nt)
+           /\ run' = NoRun /\ visited' = {} /\ got' = FALSE /\ cnt' = NoCnt
+TNext == TReset \/ TStart \/ TVisit \/ TCounts \/ TResult \/ TFinish
+TSpec == TInit /\ [][TNext]_<<run, visited, got, cnt, l>>
 AcceptExit == (l > Len(TraceLog)) => (PrintT("VERIF-ACCEPTED") /\ TLCSet("exit", TRUE))
 ===============================================================================
